@@ -269,6 +269,7 @@ func runC17(c *Check) {
 	c.ruleNoGoroutineOnNotificationPath("R7")
 	c.ruleReadyIDStoredIsIDSent("R8")
 	c.ruleEveryQueuedMessageProcessed("R9")
+	c.ruleNextMessageIDIsStoredValue("R10")
 	c.ruleQueuedOnlyOnSend("R2", fChan)
 }
 
